@@ -28,6 +28,8 @@ type FuncInfo struct {
 	GotoOrd map[*ast.BranchStmt]int // goto statements: ordinal (1-based, source order) among the gotos to the same label
 	NGotos  map[string]int
 	RetOrd  map[*ast.ReturnStmt]int // return statements: ordinal (1-based, source order), closures excluded
+	DeclOrder []*types.Var // receiver, parameters, named results, then every local variable in order of declaration
+	NSigIn, NSigOut int    // how many of DeclOrder are receiver+parameters / named results
 	NRets   int
 }
 
@@ -233,7 +235,47 @@ func (e *Engine) pos(n ast.Node) string {
 
 // indexAnchors numbers the call sites of each callee in source order and attaches them to the block-level
 // statement that contains them (nested blocks own their own statements).
+// declOrder lists the variables a function declares, in source order.  A `names` clause records their names at the
+// time the contract was written; when a variable has been renamed since, the contract's name is resolved through
+// its position in this list (a renaming of locals or parameters is not a reason to raise an alarm).
+func (e *Engine) declOrder(fi *FuncInfo) {
+	info := fi.Pkg.TypesInfo
+	fi.DeclOrder = nil
+	add := func(fl *ast.FieldList) int {
+		n := 0
+		if fl == nil {
+			return 0
+		}
+		for _, f := range fl.List {
+			for _, id := range f.Names {
+				if v, ok := info.Defs[id].(*types.Var); ok {
+					fi.DeclOrder = append(fi.DeclOrder, v)
+					n++
+				}
+			}
+		}
+		return n
+	}
+	fi.NSigIn = add(fi.Decl.Recv) + add(fi.Decl.Type.Params)
+	fi.NSigOut = add(fi.Decl.Type.Results)
+	if fi.Decl.Body == nil {
+		return
+	}
+	ast.Inspect(fi.Decl.Body, func(nd ast.Node) bool {
+		if _, ok := nd.(*ast.FuncLit); ok {
+			return false
+		}
+		if id, ok := nd.(*ast.Ident); ok {
+			if v, ok := info.Defs[id].(*types.Var); ok && !v.IsField() {
+				fi.DeclOrder = append(fi.DeclOrder, v)
+			}
+		}
+		return true
+	})
+}
+
 func (e *Engine) indexAnchors(fi *FuncInfo) {
+	e.declOrder(fi)
 	fi.Anchors = map[ast.Stmt][]string{}
 	fi.CallOrd = map[string]int{}
 	fi.GotoOrd = map[*ast.BranchStmt]int{}
